@@ -31,7 +31,7 @@ let dump_parser p =
      int_of_n p.p_pos; int_of_n p.p_version; int_of_n p.p_tagCodePage; int_of_n p.p_attrCodePage; int_of_n p.p_nesting])
 
 let enc_of = function
-  | [tr; lg; out; oh; ct; ctp; ca; cn; tcp; acp; ig; rb; ot; gt; idl; ind; inc; incd; cd; st; stl; us; xh; an; ver; oc; fm; pl; tp] ->
+  | [tr; lg; out; oh; ct; ctp; ca; cn; tcp; acp; ig; rb; ot; gt; idl; ind; inc; incd; cd; st; stl; us; xh; an; ver; oc; fm; pl; ptc; pac; pin; pic; ptg; tp] ->
     { e_tree = n_of_int tr; e_lang = optn lg; e_output = optl out; e_output_header = optl oh;
       e_current_tag = (if ct = 0 then None else Some (N0, N0)); e_current_text_parent = n_of_int ctp;
       e_current_attr = n_of_int ca; e_current_node = n_of_int cn; e_tagCodePage = n_of_int tcp; e_attrCodePage = n_of_int acp;
@@ -39,7 +39,9 @@ let enc_of = function
       e_indent_delta = n_of_int idl; e_indent = n_of_int ind; e_in_content = b inc; e_in_cdata = b incd; e_cdata = optl cd;
       e_strstbl = list_of_len (n_of_int st); e_strstbl_len = n_of_int stl; e_use_strtbl = b us; e_xml_encode_header = b xh;
       e_produce_anonymous = b an; e_wbxml_version = n_of_int ver; e_output_charset = n_of_int oc; e_flow_mode = b fm;
-      e_pre_last_node_len = n_of_int pl; e_textual_publicid = b tp }
+      e_pre_last_node_len = n_of_int pl; e_pre_last_tagCodePage = n_of_int ptc; e_pre_last_attrCodePage = n_of_int pac;
+      e_pre_last_indent = n_of_int pin; e_pre_last_in_content = b pic;
+      e_pre_last_tag = (if ptg = 0 then None else Some (N0, N0)); e_textual_publicid = b tp }
   | _ -> failwith "encoder dump: wrong number of fields"
 let dump_enc e =
   String.concat "," (List.map string_of_int
@@ -49,7 +51,9 @@ let dump_enc e =
      int_of_n e.e_xml_gen_type; int_of_n e.e_indent_delta; int_of_n e.e_indent; ib e.e_in_content; ib e.e_in_cdata;
      flag e.e_cdata; (match e.e_strstbl with None -> 0 | Some l -> 1 + List.length l); int_of_n e.e_strstbl_len;
      ib e.e_use_strtbl; ib e.e_xml_encode_header; ib e.e_produce_anonymous; int_of_n e.e_wbxml_version;
-     int_of_n e.e_output_charset; ib e.e_flow_mode; int_of_n e.e_pre_last_node_len; ib e.e_textual_publicid])
+     int_of_n e.e_output_charset; ib e.e_flow_mode; int_of_n e.e_pre_last_node_len; int_of_n e.e_pre_last_tagCodePage;
+     int_of_n e.e_pre_last_attrCodePage; int_of_n e.e_pre_last_indent; ib e.e_pre_last_in_content; flag e.e_pre_last_tag;
+     ib e.e_textual_publicid])
 
 let () =
   try while true do
